@@ -166,27 +166,40 @@ def rt_real(seed, n):
     from msdm.core.distributions import DictDistribution
     rnd = random.Random(seed)
     out = []
-    for k in range(n):
-        Sn = rnd.choice([2, 3, 4])
-        acts = {s: tuple(rnd.sample(['u', 'v', 'w'], rnd.choice([1, 2]))) for s in range(Sn)}
-        T, R = {}, {}
-        for s in range(Sn):
-            for a in acts[s]:
-                sup = rnd.sample(range(Sn), rnd.choice([1, 2]) if Sn > 1 else 1)
-                ws = [rnd.choice([1, 2, 3]) for _ in sup]
-                T[(s, a)] = {n_: w / sum(ws) for n_, w in zip(sup, ws)}
-                for n_ in sup:
-                    R[(s, a, n_)] = float(rnd.choice([-2, -1, 0, 1, 3]))
-        g = rnd.choice([0.5, 0.9, 1.0])
+    # fixed cases with an ABSORBING state: a recurrent class that pays every step, and a one-off exit to the absorbing state that pays more than one step of
+    # staying (state 0 -> 1; at 1: stay (+pay) or leave to the absorbing 2 (+lump)).  Undiscounted, the improvement step can oscillate between the two;
+    # a planner that stops on a repeated policy and reports convergence reports the gain of whichever policy it evaluated last.
+    fixed = []
+    for pay, lump, pexit, g_ in ((1., 100., 1., 1.0), (1., 100., 1., 0.95), (1., 3., 1., 1.0), (2., 5., .5, 1.0), (1., 100., 1., 0.5)):
+        fixed.append((3, {0: ('u',), 1: ('u', 'v'), 2: ('u',)},
+                      {(0, 'u'): {1: 1.}, (1, 'u'): {1: 1.}, (1, 'v'): ({2: 1.} if pexit == 1. else {2: pexit, 1: 1 - pexit}), (2, 'u'): {2: 1.}},
+                      {(1, 'u', 1): pay, (1, 'v', 2): lump, (1, 'v', 1): 0.}, {2}, g_))
+    for k in range(n + len(fixed)):
+        if k >= n:
+            Sn, acts, T, R, absorbing, g = fixed[k - n]
+        else:
+            absorbing = set()
+            Sn = rnd.choice([2, 3, 4])
+            acts = {s: tuple(rnd.sample(['u', 'v', 'w'], rnd.choice([1, 2]))) for s in range(Sn)}
+            T, R = {}, {}
+            for s in range(Sn):
+                for a in acts[s]:
+                    sup = rnd.sample(range(Sn), rnd.choice([1, 2]) if Sn > 1 else 1)
+                    ws = [rnd.choice([1, 2, 3]) for _ in sup]
+                    T[(s, a)] = {n_: w / sum(ws) for n_, w in zip(sup, ws)}
+                    for n_ in sup:
+                        R[(s, a, n_)] = float(rnd.choice([-2, -1, 0, 1, 3]))
+            g = rnd.choice([0.5, 0.9, 1.0])
         mdp = QuickTabularMDP(next_state_dist=lambda s, a: DictDistribution(T[(s, a)]), reward=lambda s, a, ns: R.get((s, a, ns), 0.), actions=lambda s: acts[s],
-                              initial_state_dist=DictDistribution({s: 1 / Sn for s in range(Sn)}), is_absorbing=lambda s: False, discount_rate=g)
-        w = dict(T=repr(T), R=repr(R), acts=repr(acts), gamma=g)
+                              initial_state_dist=DictDistribution({s: (1 / (Sn - len(absorbing)) if s not in absorbing else 0.) for s in range(Sn)}),
+                              is_absorbing=lambda s: s in absorbing, discount_rate=g)
+        w = dict(T=repr(T), R=repr(R), acts=repr(acts), gamma=g, absorbing=sorted(absorbing))
         try:
             with warnings.catch_warnings():
                 warnings.simplefilter('ignore')
                 if len(mdp.state_list) != Sn:
                     continue
-                res = mc.MultichainPolicyIteration(max_iterations=200).plan_on(mdp)
+                res = mc.MultichainPolicyIteration(max_iterations=200 if k < n else 40).plan_on(mdp)
         except UnboundLocalError:
             continue
         if not res.converged:
@@ -198,6 +211,9 @@ def rt_real(seed, n):
         for ch in itertools.product(*[acts[s] for s in range(Sn)]):
             P = np.zeros((Sn, Sn)); r = np.zeros(Sn)
             for s in range(Sn):
+                if s in absorbing:
+                    P[s, s] = 1.            # the episode has ended: nothing more is collected
+                    continue
                 for n_, p in T[(s, ch[s])].items():
                     P[s, n_] += p
                     r[s] += p * R.get((s, ch[s], n_), 0.)
